@@ -43,7 +43,8 @@ CHECKS = {
          "environment-reading draw sites) and selects schema sequences exercising every draw site. Each (seed, "
          "sequence) is run through the module-level fake() after Random().set_seed(k), twice per process, in 4 (quick) "
          "/ 8 (thorough) fresh interpreters with different PYTHONHASHSEED; spec/Trace_C17.tla decides equality within a "
-         "process and across configurations and that every recorded draw lies within its primitive's contract. The "
+         "process and across configurations (the recorded draws are compared as drift only: the property speaks of "
+         "the values). Sequences of one to four random nested declarations are run the same way. The "
          "model is thin here by design (DESIGN 10): the deciding observation is the cross-process comparison.",
     design="7 C17", technique="TLA+ non-interference statement + TLC-selected cases; cross-process seeded runs "
                               "trace-validated by TLC"),
@@ -84,7 +85,8 @@ CHECKS = {
          "make_required, the calls the printer model emits fold back through the DSL model to the schema printed. "
          "Each schema is built on the real DSL, printed (repr twice, represent), evaluated with {schema, optional, UUID, "
          "datetime}, compared with ==/!=, re-printed, and re-read with a recording facade; spec/Trace_Repr.tla decides "
-         "the flags and evaluates the recorded expression tree under the spec's DSL.",
+         "the flags and evaluates the recorded expression tree under the spec's DSL. 15 000 (thorough 80 000) random "
+         "declarations nested 3-5 levels are printed, evaluated and validated the same way.",
     design="7 C06", technique="TLA+ printer model folded through the DSL model, TLC; real repr/eval round trip "
                               "trace-validated by TLC"),
  "C15": dict(
@@ -106,9 +108,11 @@ CHECKS = {
                               "operators; events trace-validated by TLC"),
  "C14": dict(
     text="TLC explores spec/MC_Native.tla over the plain-value universe (nesting <=3) and every injection of one "
-         "non-plain member, checking on the from_native model that the schema accepts the value, generates exactly it, "
+         "non-plain member (also at dict-key positions), checking on the from_native model that the schema accepts the value, generates exactly it, "
          "rejects every one-step edit that is a different value, and that other kinds are refused with ValueError; each "
-         "value is replayed on the real from_native/validate/fake and validated by spec/Trace_Native.tla.",
+         "value is replayed on the real from_native/validate/fake and validated by spec/Trace_Native.tla, and so are "
+         "1 500 (thorough 20 000) random plain values nested up to four containers, a third of them with one member of "
+         "another kind at a random position.",
     design="7 C14", technique="TLA+ from_native model + TLC; values replayed on the real code; events trace-validated "
                               "by TLC"),
  "C04": dict(
